@@ -163,3 +163,25 @@ ROUND3 += [
         (J + "models/base.py", "    if s and '0' <= s[0] <= '9':\n", "    if len(s) > 0 and '0' <= s[0] <= '9':\n"),
     ]),
 ]
+
+ROUND3 += [
+    ("imports_setdefault", "compile_imports unites the names through setdefault", [
+        (J + "dynamic_typing/typing.py",
+         "            classes_set = class_imports_map.get(module, set())\n            if isinstance(classes, str):\n"
+         "                classes_set.add(classes)\n            else:\n                classes_set.update(classes)\n"
+         "            class_imports_map[module] = classes_set\n",
+         "            classes_set = class_imports_map.setdefault(module, set())\n            if isinstance(classes, str):\n"
+         "                classes_set.add(classes)\n            else:\n                classes_set.update(classes)\n"),
+    ]),
+    ("sort_kwargs_direct_return", "sort_kwargs returns the merged mapping directly", [
+        (J + "models/base.py", "    sorted_dict = {**sorted_dict_1, **kwargs, **sorted_dict_2}\n    return sorted_dict\n",
+         "    return {**sorted_dict_1, **kwargs, **sorted_dict_2}\n"),
+    ]),
+    ("convert_args_items", "the wrapper converts keyword arguments over kwargs.items()", [
+        (J + "utils.py",
+         "            name: kwargs_converters[name](kwargs[name]) if kwargs_converters.get(name, None) else kwargs[name]\n"
+         "            for name in kwargs.keys()\n",
+         "            name: kwargs_converters[name](value) if kwargs_converters.get(name, None) else value\n"
+         "            for name, value in kwargs.items()\n"),
+    ]),
+]
